@@ -177,11 +177,14 @@ func (q *querier) resolveRefQuery(ctx context.Context, repo vcs.Repository, majo
 	}
 
 	var version *vcs.Version
+ancestors:
 	for ancestor := range revision.History() {
 		for _, v := range slices.Backward(versions) {
 			if v.Version.Path == query.path && majorVersionMatch(majorVersion, v.Version.Version) && v.RevisionID == ancestor.ID() {
+				// History yields the revision itself first, then its ancestors from newest to
+				// oldest: the first tagged revision found is the closest one.
 				version = v
-				break
+				break ancestors
 			}
 		}
 	}
